@@ -100,6 +100,7 @@ def run_case(case, drv):
             objs = {}
             outcome = {}
             for form in order:
+                returned = False
                 try:
                     np.random.seed(7)
                     getter = {"arc": m.get_arc_based, "path": m.get_path_based,
@@ -107,6 +108,7 @@ def run_case(case, drv):
                     # first request with or without the heuristic (non-default argument), then again in every way
                     first_plain = form in case.get("plain_first", [])
                     o = getter(make_feasible=False) if first_plain else getter()
+                    returned = True
                     if first_plain:
                         again0 = getter(make_feasible=False)
                         if again0 is not o:
@@ -120,6 +122,19 @@ def run_case(case, drv):
                         res.fail("getter:not-idempotent", f"requesting the {form} formulation twice returned two objects (order {order})")
                 except Exception as e:  # noqa
                     outcome[form] = core.err_kind(e)
+                    if not returned:
+                        # a request that raised must not leave a half-configured formulation in the MIRP: the same request again
+                        # fails the same way instead of silently returning what the failed one left behind
+                        try:
+                            np.random.seed(7)
+                            left = getter(make_feasible=False) if form in case.get("plain_first", []) else getter()
+                            res.fail("getter:failed-request-leaves-object",
+                                     f"requesting the {form} formulation raised {e!r}; the same request again returned an object "
+                                     f"({type(left).__name__}, {left.get_num_variables()} variables, feasible_solution "
+                                     f"{'set' if left.feasible_solution is not None else 'None'}) (order {order})")
+                            return res
+                        except Exception:  # noqa
+                            pass
                 if mirp_snapshot(m) != snap0:
                     res.fail("source:mirp-changed", f"MIRP data changed after requesting {form} (order {order})")
                     return res
